@@ -42,6 +42,10 @@ ASSUMPTIONS = [
     "non-ASCII text input is outside the models (the oracle still exercises it in the malformed stream)",
 ]
 
+WRAP_ZOO = ["none", "FormError", "BadPointer", "NameTooLong", "SyntaxError", "UnexpectedEnd", "BadEscape", "DNSException", "Timeout",
+            "UnknownRdatatype", "ValueError", "KeyError", "IndexError", "struct.error", "UnicodeError", "AssertionError",
+            "RecursionError", "MemoryError", "ZeroDivisionError", "TypeError", "AttributeError", "OverflowError", "StopIteration",
+            "builtin SyntaxError", "Exception", "custom BaseException"]
 MSG_WORDS = [
     "id", "flags", "edns", "eflags", "payload", "opcode", "rcode", "QR", "AA", "DO", "IN", "FLAG3", "FLAG15", "FLAG16",
     "FLAG99", "FLAG999999999996", "FLAG", "QUERY", "UPDATE", "NOTIFY", "NOERROR", "BADVERS", "15", "16", "-1", "255",
@@ -524,6 +528,38 @@ def eval_case(ctx: Ctx, c: dict):
         if v:
             for rrs in v[:4]:
                 render_back(ctx, "rrset", rrs, rep, f"rrset parsed from {t!r}", wire=False)
+    elif k == "wrap":
+        # dns.exception.ExceptionWrapper with a zoo of exception classes
+        import struct as _struct
+        zoo = {
+            "none": None, "FormError": dns.exception.FormError, "BadPointer": dns.name.BadPointer, "NameTooLong": dns.name.NameTooLong,
+            "SyntaxError": dns.exception.SyntaxError, "UnexpectedEnd": dns.exception.UnexpectedEnd, "BadEscape": dns.name.BadEscape,
+            "DNSException": dns.exception.DNSException, "Timeout": dns.exception.Timeout, "UnknownRdatatype": dns.rdatatype.UnknownRdatatype,
+            "ValueError": ValueError, "KeyError": KeyError, "IndexError": IndexError, "struct.error": _struct.error,
+            "UnicodeError": UnicodeError, "AssertionError": AssertionError, "RecursionError": RecursionError,
+            "MemoryError": MemoryError, "ZeroDivisionError": ZeroDivisionError, "TypeError": TypeError,
+            "AttributeError": AttributeError, "OverflowError": OverflowError, "StopIteration": StopIteration,
+            "builtin SyntaxError": SyntaxError, "Exception": Exception, "custom BaseException": Hang,
+        }
+        fam = {"F": dns.exception.FormError, "S": dns.exception.SyntaxError}[c["family"]]
+        X = zoo[c["exc"]]
+        kind = lambda t: "none" if t is None else ("F" if issubclass(t, dns.exception.FormError) else ("S" if issubclass(t, dns.exception.SyntaxError) else "O"))
+        escaped = None
+        try:
+            with dns.exception.ExceptionWrapper(fam):
+                if X is not None:
+                    raise X("boom")
+        except BaseException as e:  # noqa
+            escaped = e
+        impl = kind(None if escaped is None else type(escaped))
+        ctx.corr(f"c04.wrap {c['family']} {kind(X)}", impl, c)
+        ctx.count("wrap." + c["family"] + "." + impl)
+        if escaped is not None and not isinstance(escaped, fam):
+            ctx.fail(f"C04/ExceptionWrapper/{c['family']}/lets-through:{type(escaped).__name__}",
+                     f"ExceptionWrapper({fam.__name__}) let {type(escaped).__name__} escape", rep)
+        if escaped is not None and X is not None and issubclass(X, fam) and type(escaped) is not X:
+            ctx.fail(f"C04/ExceptionWrapper/{c['family']}/rewraps-own:{X.__name__}",
+                     f"ExceptionWrapper({fam.__name__}) turned {X.__name__} into {type(escaped).__name__}", rep)
     elif k == "parser":
         w = bytes.fromhex(c["wire"])
         prog = c["prog"]
@@ -765,6 +801,11 @@ def run(ctx: Ctx):
         ctx.case(("corpus", p))
         eval_case(ctx, c)
         ctx.count("corpus")
+    for famc in ("F", "S"):
+        for exc in WRAP_ZOO:
+            c = {"kind": "wrap", "family": famc, "exc": exc}
+            ctx.case(("wrap", famc, exc))
+            eval_case(ctx, c)
     flush_reads(ctx)
     generate(ctx, 1 if ctx.tier == "quick" else 20, ctx.rng)
 
